@@ -123,8 +123,12 @@ class Auth(auth.BaseAuth):
                 self._verify = functools.partial(self._bcrypt, bcrypt)
             else:
                 self._verify = self._autodetect
-                if self._htpasswd_bcrypt_use:
+                if self._has_bcrypt:
+                    # bind whenever the module is available: the file can
+                    # get bcrypt entries after start-up (re-read)
                     self._verify_bcrypt = functools.partial(self._bcrypt, bcrypt)
+                else:
+                    self._verify_bcrypt = self._bcrypt_unavailable
         else:
             raise RuntimeError("The htpasswd encryption method %r is not "
                                "supported." % self._encryption)
@@ -143,6 +147,12 @@ class Auth(auth.BaseAuth):
             return self._plain_fallback("BCRYPT", hash_value, password)
         else:
             return ("BCRYPT", bcrypt.checkpw(password=password.encode('utf-8'), hashed_password=hash_value.encode()))
+
+    def _bcrypt_unavailable(self, hash_value: str, password: str) -> tuple[str, bool]:
+        """Autodetected bcrypt-like ``hash_value`` without bcrypt module."""
+        if len(hash_value) != 60:
+            return self._plain_fallback("BCRYPT", hash_value, password)
+        raise ValueError("bcrypt module not available")
 
     def _md5apr1(self, hash_value: str, password: str) -> tuple[str, bool]:
         if self._encryption == "autodetect" and len(hash_value) != 37:
